@@ -1,6 +1,7 @@
 package srvp
 
 import (
+	"syscall"
 	"bytes"
 	"context"
 	"errors"
@@ -21,6 +22,8 @@ import (
 	"github.com/aws/aws-sdk-go-v2/aws"
 	"github.com/aws/aws-sdk-go-v2/credentials"
 	"github.com/aws/aws-sdk-go-v2/service/s3"
+	"github.com/tailscale/setec/audit"
+	"github.com/tailscale/setec/db"
 	"github.com/tailscale/setec/server"
 	"github.com/tink-crypto/tink-go/v2/tink"
 	"pgregory.net/rapid"
@@ -43,9 +46,25 @@ type fakeS3 struct {
 	script   []string // per attempt: ok | fail | neterr | block (7.3s then ok) | slowNN (NN.3 s then ok) | hang (until the request context ends)
 	attempts []attempt
 	release  chan struct{}
+	stateDir string // scanned at the start of every upload attempt (C05: files readable by their owner only)
 }
 
+// looseDuringUpload is set by every run of runC17Bubble: the first file of the state directory that
+// was readable or writable by group/others while an upload was being served ("" = none).
+var looseDuringUpload atomic.Value
+
+func init() { syscall.Umask(0o022) } // the usual umask of a service: modes must come from the code, not from luck
+
 func (f *fakeS3) Do(r *http.Request) (*http.Response, error) {
+	if f.stateDir != "" {
+		if es, err := os.ReadDir(f.stateDir); err == nil {
+			for _, e := range es {
+				if fi, err := e.Info(); err == nil && fi.Mode().IsRegular() && fi.Mode().Perm()&0o077 != 0 && looseDuringUpload.Load().(string) == "" {
+					looseDuringUpload.Store(fmt.Sprintf("%s has mode %v (%d bytes) while upload attempt %d is being served", e.Name(), fi.Mode().Perm(), fi.Size(), len(f.attempts)))
+				}
+			}
+		}
+	}
 	b, _ := io.ReadAll(r.Body)
 	f.mu.Lock()
 	i := len(f.attempts)
@@ -131,11 +150,28 @@ const retryWithin = 3 * time.Minute
 
 var spin = h.NewSpinWatch("C17", "backup", "periodicBackup", 10, 2*time.Second)
 
+// a timeline that never finishes because a goroutine is blocked for good on a lock that was never
+// released (the backup task taking the database lock, say) cannot be waited for: see h.StuckWatch
+var c17stuck = h.NewStuckWatch("C17", "backup", "terminates-when-context-cancelled", "the backup timeline (database calls by the program, the backup task, cancellation)", 90*time.Second)
+
+// c17Sink is the audit device of the C17 timelines: fine unless told to fail.
+type c17Sink struct{ fail atomic.Bool }
+
+func (s *c17Sink) Write(p []byte) (int, error) {
+	if s.fail.Load() {
+		return 0, errors.New("injected: audit device unavailable")
+	}
+	return len(p), nil
+}
+
 func runC17(t *testing.T, c BackupCase) (v *h.Violation, info h.Info) {
 	dir := caseDir(t)
 	defer os.RemoveAll(dir)
 	spin.Begin(c)
+	c17stuck.Begin(c)
+	c17stuck.Enter(0)
 	synctest.Test(t, func(t *testing.T) { v = runC17Bubble(dir, c, &info) })
+	c17stuck.Leave(0)
 	spin.Progress()
 	return
 }
@@ -144,7 +180,8 @@ func runC17Bubble(dir string, c BackupCase, info *h.Info) *h.Violation {
 	p := filepath.Join(dir, "db")
 	key := dbx.DummyKey()
 	counting := &c17KEK{inner: key}
-	d, err := dbx.OpenDiscard(p, counting)
+	sink := &c17Sink{}
+	d, err := db.Open(p, counting, audit.New(sink))
 	if err != nil {
 		return h.V("harness", "open: %v", err)
 	}
@@ -154,7 +191,8 @@ func runC17Bubble(dir string, c BackupCase, info *h.Info) *h.Violation {
 		time.Sleep(time.Duration(c.OffsetS)*time.Second + 7*time.Millisecond) // the bubble's clock starts on a whole minute
 		info.Class("started-off-the-minute")
 	}
-	fs := &fakeS3{t0: time.Now(), script: c.Script, release: make(chan struct{})}
+	looseDuringUpload.Store("")
+	fs := &fakeS3{t0: time.Now(), script: c.Script, release: make(chan struct{}), stateDir: dir}
 	cl := s3.New(s3.Options{Region: "us-east-1", Credentials: credentials.NewStaticCredentialsProvider("AK", "SK", ""), HTTPClient: fs,
 		BaseEndpoint: aws.String("http://s3.test"), UsePathStyle: true, Retryer: aws.NopRetryer{}})
 	ctx, cancel := context.WithCancel(context.Background())
@@ -193,6 +231,29 @@ func runC17Bubble(dir string, c BackupCase, info *h.Info) *h.Violation {
 			}
 			done := false
 			switch kind {
+			case "auditfail":
+				// the audit device fails once while a value is being read; afterwards the program lists its
+				// secrets. Whatever those two calls report, they return - and the backup task, which needs
+				// the database lock now and then, keeps running and still ends when told to.
+				sink.fail.Store(true)
+				d.Get(su.DB(), "k")
+				sink.fail.Store(false)
+				d.List(su.DB())
+				info.Class("audit-device-failed-once-then-a-list")
+				continue
+			case "failput":
+				// a write the disk refuses (the state directory is unavailable for its duration): the call
+				// fails, nothing was written, and so there is nothing new to back up
+				var perr error
+				if _, err := dbx.Outage(dir, func() { _, perr = d.Put(su.DB(), "k", []byte(fmt.Sprintf("refused-%d-%d", i, w))) }); err != nil {
+					return
+				}
+				if perr != nil {
+					info.Class("a-write-the-disk-refused")
+					continue
+				}
+				// (it reported success: then it counts as a write like any other)
+				done = true
 			case "activate":
 				if in, err := d.Info(su.DB(), "k"); err == nil && len(in.Versions) > 0 && in.Versions[len(in.Versions)-1] != in.ActiveVersion {
 					done = d.Activate(su.DB(), "k", in.Versions[len(in.Versions)-1]) == nil
@@ -373,7 +434,7 @@ func genBackupCase(rt *rapid.T) BackupCase {
 	sort.Ints(ws)
 	c.Writes = ws
 	if rapid.IntRange(0, 1).Draw(rt, "kinds") == 0 {
-		pool := []string{"put", "put", "activate", "delver", "delver", "del"}
+		pool := []string{"put", "put", "activate", "delver", "delver", "del", "failput", "failput", "auditfail"}
 		if rapid.IntRange(0, 5).Draw(rt, "big") == 0 {
 			pool = append(pool, "putbig") // (costly: every later save rewrites more than a megabyte)
 		}
@@ -395,12 +456,15 @@ var c17 = &h.Campaign[BackupCase]{
 // backup is part of the running server. The same timelines as C17; only the key counter is judged.
 var c05backup = &h.Campaign[BackupCase]{
 	Prop: "C05", Sub: "backup-needs-no-kek",
-	Rule: "rapid + testing/synctest: the C17 backup timelines (writes of every kind, upload outcomes, cancellation) run with a counting key-encryption key; after Open has returned the key must not be used again by the backup task or anything else; non-trivial = at least one write and a task that lived longer than a minute; distinct by timeline",
+	Rule: "rapid + testing/synctest: the C17 backup timelines (writes of every kind, upload outcomes, cancellation) run with a counting key-encryption key; after Open has returned the key must not be used again by the backup task or anything else; at the start of every upload attempt every regular file in the state directory must be readable and writable by its owner only (umask 022); non-trivial = at least one write and a task that lived longer than a minute; distinct by timeline",
 	Quick: 300, Thorough: 20000,
 	Gen:   genBackupCase,
 	Run: func(t *testing.T, c BackupCase) (*h.Violation, h.Info) {
 		_, info := runC17(t, c) // what C17 itself has to say is reported by C17's own campaign
 		info.NonTrivial = len(c.Writes) > 0 && c.CancelS >= 61
+		if l, _ := looseDuringUpload.Load().(string); l != "" {
+			return h.V("files-readable-by-owner-only", "with the periodic backup running the state directory held a file that others can read: %s", l), info
+		}
 		if n := kekAfterOpen.Load(); n != 0 {
 			return h.V("kek-only-at-open", "with the periodic backup running (script %v, %d writes, cancelled after %ds) the key-encryption key was used %d time(s) after Open had returned", c.Script, len(c.Writes), c.CancelS, n), info
 		}
